@@ -1589,6 +1589,153 @@ def weyl_search(ctx):
 
 
 # ---------------------------------------------------------------------------
+# (3b') perturbation ladders around the special branches of the KAK path
+
+
+NEARBELL_LADDER = (1e-9, 1e-8, 1e-7, 3e-5, 1e-4, 3e-4, 1e-3, 3e-3, 1e-2, 1e-1)
+
+
+def nearbell_family(rng, thorough):
+    """(label, eps, M): NEARLY Bell-diagonal two-qubit unitaries P(eps) B or B P(eps), B = exp(-i(hx XX+hy YY+hz ZZ)) a
+    special core (identity / CNOT / iSWAP / SWAP class, equal, degenerate and generic coefficients) and P(eps) a tiny local
+    rotation or a weak controlled rotation / phase of angle eps on a geometric ladder (each rung times a factor in [1, 2]),
+    as given and normalised to determinant 1.  The rungs within a decade of 1e-6 are left out: two_qubit_decomposition
+    documents an element-wise 1e-6 test for 'already Bell-diagonal', so deviations of that order are by design there."""
+    q4, q8 = math.pi / 4, math.pi / 8
+    cores = {"identity": (0, 0, 0), "cnot": (q4, 0, 0), "iswap": (q4, q4, 0), "swap": (q4, q4, q4), "sqrtswap": (q8, q8, q8),
+             "gen": (0.37, 0.81, 0.23), "xxyy": (0.7, 0.4, 0), "eq2": (0.9, 0.9, 0.2), "oneaxis": (0, 0.6, 0)}
+    X = np.array([[0, 1], [1, 0]], dtype=complex)
+    Y = np.array([[0, -1j], [1j, 0]], dtype=complex)
+    Z = np.diag([1, -1]).astype(complex)
+
+    def rot(P, t):
+        return math.cos(t / 2) * np.eye(2) - 1j * math.sin(t / 2) * P
+
+    def ctrl(m):
+        out = np.eye(4, dtype=complex)
+        out[2:, 2:] = m
+        return out
+
+    kinds = {
+        "RZxRX": lambda e: np.kron(rot(Z, e), rot(X, e)),
+        "RYxI": lambda e: np.kron(rot(Y, e), np.eye(2)),
+        "IxRZ": lambda e: np.kron(np.eye(2), rot(Z, e)),
+        "CRZ": lambda e: ctrl(rot(Z, e)),
+        "CRX": lambda e: ctrl(rot(X, e)),
+        "CPhase": lambda e: np.diag([1, 1, 1, np.exp(1j * e)]),
+    }
+    fam = []
+    for cn, h in cores.items():
+        B = bell_core(*h)
+        for kn, mk in kinds.items():
+            for rung in NEARBELL_LADDER:
+                combos = [(sd, nm) for sd in "LR" for nm in (False, True)]
+                for sd, nm in (combos if thorough else [rng.choice(combos)]):
+                    e = rung * rng.uniform(1.0, 2.0)
+                    P = mk(e)
+                    M = P @ B if sd == "L" else B @ P
+                    if nm:
+                        M = M / np.linalg.det(M) ** 0.25
+                    fam.append((f"{cn}*{kn}" if sd == "R" else f"{kn}*{cn}", cn, kn, rung, e, nm, h, M))
+    return fam
+
+
+def nearbell_search(ctx):
+    """arbitrary two-qubit unitaries INCLUDING the ones next to the non-generic branches of the numerical KAK path: the operator
+    of the result of two_qubit_decomposition / translate_gate / Unroller equals the explicit input matrix up to a phase (1e-6)."""
+    from qibo import Circuit
+    from qibo.transpiler import unitary_decompositions as UD
+
+    gates, D, U = modules()
+    nb = qgates.np_backend()
+    rng = ctx.rng
+    before = len(ctx.failures)
+    OBO = "C10_search_nearbell_operator"
+    tol = 1e-6
+    sets2 = [s for s in native_sets() if s[3] != ("CNOT",)]
+    worst = 0.0
+    for lab, cn, kn, rung, e, nm, h, M in nearbell_family(rng, ctx.thorough):
+        q = rng.choice([(0, 1), (1, 0), (2, 0)])
+        n = max(q) + 1
+        Mc = f"np.array({np.asarray(M).tolist()})"
+        desc = (f"'{lab}' (core exp(-i({h[0]:.6g} XX + {h[1]:.6g} YY + {h[2]:.6g} ZZ)), perturbation {kn} of angle {e:.6g}"
+                + (", normalised to det 1)" if nm else ")"))
+        ctx.case(("nearbell", cn, kn, rung))
+        ctx.stat("nearbell_cases")
+        ref = apply_local(np.eye(2**n, dtype=complex), M, list(q), n)
+        pre = REPLAY_PRE + f"from qibo.transpiler.unitary_decompositions import two_qubit_decomposition\nM = {Mc}\n"
+
+        def dev(A):
+            c = np.vdot(ref, A)
+            return float(np.max(np.abs(A - (c / abs(c)) * ref))) if abs(c) > 1e-12 else float("inf")
+
+        # (a) the numerical KAK entry point
+        try:
+            gl = UD.two_qubit_decomposition(q[0], q[1], np.array(M, dtype=complex), backend=nb)
+            A = full_of(gl, n)
+            d = dev(A)
+            worst = max(worst, d)
+            bad = None if _peq(A, ref, tol) else f"operator deviates by {d:.3g} up to a global phase"
+        except Exception as ex:
+            if is_magic_basis_refusal(ex):
+                ctx.stat("nearbell_known_refusal")
+                continue
+            bad = f"raises {type(ex).__name__}: {ex}"
+        if bad:
+            ctx.fail(f"nearbell:kak:{kn}", f"two_qubit_decomposition of the nearly Bell-diagonal unitary {desc} on qubits {q}: {bad}",
+                     pre + f"gl = two_qubit_decomposition({q[0]}, {q[1]}, M.astype(complex), backend=nb)\n"
+                     f"assert phase_equal(full(gl, {n}), full([gates.Unitary(M, *{list(q)})], {n}), 1e-6)\n",
+                     expected="the input matrix up to a global phase (1e-6)", observed=bad, broken=[OBO])
+        # (b) translate_gate under the two-qubit native sets
+        for sname, ns, s1, s2 in (sets2 if ctx.thorough else rng.sample(sets2, 1)):
+            ctx.case(("nearbell_tr", cn, kn, rung, sname))
+            try:
+                out = as_list(U.translate_gate(gates.Unitary(np.array(M, dtype=complex), *q), ns))
+                bad = None if only_native(out, ns) else "non-native gates"
+                if bad is None:
+                    A = full_of(out, n)
+                    if not _peq(A, ref, tol):
+                        bad = f"operator deviates by {dev(A):.3g} up to a global phase"
+            except Exception as ex:
+                if is_magic_basis_refusal(ex):
+                    continue
+                bad = f"raises {type(ex).__name__}: {ex}"
+            if bad:
+                ctx.fail(f"nearbell:translate:{sname}", f"translate_gate(Unitary({desc}, {q}), {flag_names(ns)}): {bad}",
+                         pre + f"ns = natives({flag_names(ns)})\nout = translate_gate(gates.Unitary(M, *{list(q)}), ns)\n"
+                         f"out = out if isinstance(out, list) else [out]\n"
+                         f"assert only_native(out, ns) and phase_equal(full(out, {n}), full([gates.Unitary(M, *{list(q)})], {n}), 1e-6)\n",
+                         expected="native gates whose product is the input matrix up to a global phase (1e-6)", observed=bad, broken=[OBO])
+        # (c) a circuit through the Unroller
+        if ctx.thorough or rng.random() < 0.25:
+            sname, ns, s1, s2 = rng.choice(sets2)
+            ctx.stat("nearbell_unroller")
+            try:
+                c = Circuit(n)
+                c.add(gates.H(q[1]))
+                c.add(gates.Unitary(np.array(M, dtype=complex), *q))
+                c.add(gates.RX(q[0], 0.4))
+                want = full_of([gates.RX(q[0], 0.4)], n) @ ref @ full_of([gates.H(q[1])], n)
+                u = U.Unroller(ns)(c)
+                bad = None if only_native(u.queue, ns) else "non-native gates"
+                if bad is None and not _peq(full_of(list(u.queue), n), want, tol):
+                    bad = "wrong operator"
+            except Exception as ex:
+                if is_magic_basis_refusal(ex):
+                    continue
+                bad = f"raises {type(ex).__name__}: {ex}"
+            if bad:
+                ctx.fail(f"nearbell:unroller:{sname}", f"Unroller({sname}) on H, Unitary({desc}), RX: {bad}",
+                         REPLAY_PRE + f"ns = natives({flag_names(ns)})\nM = {Mc}\nc = Circuit({n})\nc.add(gates.H({q[1]}))\n"
+                         f"c.add(gates.Unitary(M, *{list(q)}))\nc.add(gates.RX({q[0]}, 0.4))\nu = Unroller(ns)(c)\n"
+                         f"assert only_native(u.queue, ns) and phase_equal(full(u.queue, {n}), full(c.queue, {n}), 1e-6)\n",
+                         observed=bad, broken=[OBO])
+    ctx.stats["nearbell_worst_deviation"] = float(f"{worst:.3g}")
+    hit = [f["key"] for f in ctx.failures[before:] if OBO in f["broken"]]
+    ctx.ob(OBO, not hit, "search", "" if not hit else "failing inputs found: " + ", ".join(sorted(set(hit))[:6]))
+
+
+# ---------------------------------------------------------------------------
 # (3c) input representations: the same mathematical matrix passed as float64 / int64 / complex64 arrays and nested lists
 
 
@@ -2487,6 +2634,7 @@ def run(ctx):
     lap("gate_search")
     unitary_search(ctx)
     weyl_search(ctx)
+    nearbell_search(ctx)
     kak_certificate(ctx)
     dtype_search(ctx)
     circuit_search(ctx)
@@ -2512,6 +2660,7 @@ def run(ctx):
                      "assert_decomposition on the real tables' shapes; numeric search over class x native set x placement x "
                      "boundary parameters, Haar + non-generic unitaries through the ZYZ/KAK path, the Weyl chamber (Bell-diagonal cores "
                      "exp(-i(hx XX+hy YY+hz ZZ)) in all 27 zero/sign patterns x magnitude schemes + named corners, bare and dressed with "
-                     "local unitaries, through two_qubit_decomposition / translate_gate / Unroller), random circuits; histories: "
+                     "local unitaries, through two_qubit_decomposition / translate_gate / Unroller), NEARLY Bell-diagonal unitaries (special cores "
+                     "times a tiny local rotation / weak CRZ, CRX, CPhase on an angle ladder 1e-9 .. 1e-1, nearbell_search), random circuits; histories: "
                      "in-place parameter updates (attribute, set_parameters list/dict/flat) between translations of the same objects, "
                      "one Unroller reused, circuits sharing gate objects, re-parametrised outputs, tables called before/after an update")
